@@ -95,6 +95,10 @@ pub fn gen_random(seed: u64, idx: u64) -> Plan {
             if is_h2 {
                 // hyper's h2 client frames the body itself
                 e.framing = BodyFraming::Length;
+                // hyper's HTTP/2 server caps the header list at 16 KB and
+                // answers 431 above it: its configuration, not a refusal
+                // the property forbids
+                e.headers.retain(|(n, v)| !(n == "x-long" && v.len() > 8_000));
                 c.h2.push(e.h2(j, r.range(0, 30)));
                 c.reqs.push(echo_plan(&e, nonce, true));
             } else {
